@@ -13,6 +13,9 @@ func (pq *PriorityQueue[T]) VerifHeapDump() (arr []T, ok bool) {
 	return pq.priorityQueue.VerifHeapDump()
 }
 
+// VerifDataCap returns cap(data) of the wrapped internal priority queue.
+func (pq *PriorityQueue[T]) VerifDataCap() int { return pq.priorityQueue.VerifDataCap() }
+
 // VerifNewInternalPriorityQueue makes the internal priority queue itself reachable from the
 // harness (internal packages cannot be imported from outside the module).
 func VerifNewInternalPriorityQueue[T any](capacity int, compare ekit.Comparator[T]) *queue.PriorityQueue[T] {
